@@ -5,6 +5,7 @@
 From Coq Require Import List Bool Reals Lra QArith Qcanon.
 From SV Require Import Base.Num C11.Overload C09.Defs C09.Spec C09.Impl C09.GenSig C09.Thm.
 From SVGen Require Import C09_Metric.
+From SVGen Require C09_L0 C09_L1 C09_SqL2 C09_L2 C09_L1mL2 C09_SqL2Loss C09_SqL2AbsLoss C09_SqL2SqAbsLoss.
 Import ListNotations.
 
 Section Tie.
@@ -97,4 +98,105 @@ Proof.
   split; [intros; exact (eq_sym (gen_isnr rt lg ten_Qc r d s))|].
   split; [intros; exact (eq_sym (gen_bsnr rt lg ten_Qc b n))|].
   intros; exact (eq_sym (gen_relres rt lg ax b)).
+Qed.
+
+(** ** scico/functional/_norm.py: the [__call__] methods regenerated from the source *)
+Section NormTie.
+  Context {K : Type} {NK : Num K}.
+  Variable rt : K -> K.
+  Local Notation cx := (cx (K:=K)).
+
+  #[local] Instance NS_impl : NormSig K (list cx) (list K) := {|
+    n_abs := a_abs rt; n_sqr := fun a b => map2 kmul a b; n_sum := a_sum; n_norm := a_norm rt;
+    n_count := fun d => a_sum (map (fun z => if czerob z then k0 else k1) d) |}.
+
+  Lemma gen_l0 d : C09_L0.call_gen d = l0_impl d.
+  Proof. reflexivity. Qed.
+  Lemma gen_l1 d : C09_L1.call_gen d = l1_impl rt d.
+  Proof. reflexivity. Qed.
+  Lemma gen_sql2 d : C09_SqL2.call_gen d = sql2_impl rt d.
+  Proof. unfold C09_SqL2.call_gen, sql2_impl. cbn [hmul HMul_nR n_sqr NS_impl]. now rewrite map2_self. Qed.
+  Lemma gen_l2 d : C09_L2.call_gen d = l2_impl rt d.
+  Proof. reflexivity. Qed.
+  Lemma gen_l1ml2 beta d : C09_L1mL2.call_gen (C09_L1mL2.mk_st beta) d = l1ml2_impl rt beta d.
+  Proof. reflexivity. Qed.
+End NormTie.
+
+(** source-generated [__call__] = documented norm, for all arrays (over R) *)
+Theorem gen_norm_spec :
+  (forall d : list cxR, C09_L0.call_gen (NS:=NS_impl sqrt) d = l0_spec d) /\
+  (forall d : list cxR, C09_L1.call_gen (NS:=NS_impl sqrt) d = l1_spec sqrt d) /\
+  (forall d : list cxR, C09_SqL2.call_gen (NS:=NS_impl sqrt) d = sql2_spec d) /\
+  (forall d : list cxR, C09_L2.call_gen (NS:=NS_impl sqrt) d = l2_spec sqrt d) /\
+  (forall (beta : R) (d : list cxR), C09_L1mL2.call_gen (NS:=NS_impl sqrt) (C09_L1mL2.mk_st beta) d = l1ml2_spec sqrt beta d).
+Proof.
+  split; [intros; exact (eq_trans (gen_l0 sqrt d) (l0_ok d))|].
+  split; [intros; exact (eq_trans (gen_l1 sqrt d) (l1_ok d))|].
+  split; [intros; exact (eq_trans (gen_sql2 sqrt d) (sql2_ok d))|].
+  split; [intros; exact (eq_trans (gen_l2 sqrt d) (l2_ok d))|].
+  intros; exact (eq_trans (gen_l1ml2 sqrt beta d) (l1ml2_ok beta d)).
+Qed.
+
+(** and the executed [*_impl] functions are the generated ones (at Qc, for every input) *)
+Theorem gen_norm_exec (rt : Qc -> Qc) :
+  (forall d : list cxQ, l0_impl d = C09_L0.call_gen (NS:=NS_impl rt) d) /\
+  (forall d : list cxQ, l1_impl rt d = C09_L1.call_gen (NS:=NS_impl rt) d) /\
+  (forall d : list cxQ, sql2_impl rt d = C09_SqL2.call_gen (NS:=NS_impl rt) d) /\
+  (forall d : list cxQ, l2_impl rt d = C09_L2.call_gen (NS:=NS_impl rt) d) /\
+  (forall (beta : Qc) (d : list cxQ), l1ml2_impl rt beta d = C09_L1mL2.call_gen (NS:=NS_impl rt) (C09_L1mL2.mk_st beta) d).
+Proof.
+  split; [intros; exact (eq_sym (gen_l0 rt d))|].
+  split; [intros; exact (eq_sym (gen_l1 rt d))|].
+  split; [intros; exact (eq_sym (gen_sql2 rt d))|].
+  split; [intros; exact (eq_sym (gen_l2 rt d))|].
+  intros; exact (eq_sym (gen_l1ml2 rt beta d)).
+Qed.
+
+(** ** scico/loss.py: [__call__] of the three quadratic losses regenerated from the source
+    ([A] an arbitrary forward map, [w] the diagonal of [W]) *)
+Section LossTie.
+  Context {K : Type} {NK : Num K}.
+  Variable rt : K -> K.
+  Local Notation cx := (cx (K:=K)).
+
+  #[local] Instance LS_impl : LossSig (list cx) (list K) := {|
+    l_sub := vsub; l_subR := fun y r => vsub y (map (@cofre K NK) r) |}.
+  Local Existing Instance NS_impl.
+
+  Lemma gen_sql2loss alpha w y A x :
+    C09_SqL2Loss.call_gen (NS:=NS_impl rt) w (C09_SqL2Loss.mk_st alpha y A) x = sql2loss_impl rt alpha w y (A x).
+  Proof. unfold C09_SqL2Loss.call_gen, sql2loss_impl, a_mul. cbn. now rewrite map2_self. Qed.
+  Lemma gen_sql2abs alpha w y A x :
+    C09_SqL2AbsLoss.call_gen (NS:=NS_impl rt) w (C09_SqL2AbsLoss.mk_st alpha y A) x = sql2abs_impl rt alpha w y (A x).
+  Proof. unfold C09_SqL2AbsLoss.call_gen, sql2abs_impl, a_mul. cbn. now rewrite map2_self. Qed.
+  Lemma gen_sql2sqabs alpha w y A x :
+    C09_SqL2SqAbsLoss.call_gen (NS:=NS_impl rt) w (C09_SqL2SqAbsLoss.mk_st alpha y A) x = sql2sqabs_impl rt alpha w y (A x).
+  Proof. unfold C09_SqL2SqAbsLoss.call_gen, sql2sqabs_impl, a_mul. cbn. now rewrite !map2_self. Qed.
+End LossTie.
+
+(** source-generated loss value = documented formula, for all data, weights, scales and forward maps (over R) *)
+Theorem gen_loss_spec :
+  (forall alpha (w : list R) (y : list cxR) (A : list cxR -> list cxR) x,
+     C09_SqL2Loss.call_gen (NS:=NS_impl sqrt) (LS:=LS_impl) w (C09_SqL2Loss.mk_st alpha y A) x = sql2loss_spec alpha w y (A x)) /\
+  (forall alpha (w : list R) (y : list cxR) (A : list cxR -> list cxR) x,
+     C09_SqL2AbsLoss.call_gen (NS:=NS_impl sqrt) (LS:=LS_impl) w (C09_SqL2AbsLoss.mk_st alpha y A) x = sql2abs_spec sqrt alpha w y (A x)) /\
+  (forall alpha (w : list R) (y : list cxR) (A : list cxR -> list cxR) x,
+     C09_SqL2SqAbsLoss.call_gen (NS:=NS_impl sqrt) (LS:=LS_impl) w (C09_SqL2SqAbsLoss.mk_st alpha y A) x = sql2sqabs_spec alpha w y (A x)).
+Proof.
+  split; [intros; exact (eq_trans (gen_sql2loss sqrt alpha w y A x) (sql2loss_ok alpha w y (A x)))|].
+  split; [intros; exact (eq_trans (gen_sql2abs sqrt alpha w y A x) (sql2abs_ok alpha w y (A x)))|].
+  intros; exact (eq_trans (gen_sql2sqabs sqrt alpha w y A x) (sql2sqabs_ok alpha w y (A x))).
+Qed.
+
+Theorem gen_loss_exec (rt : Qc -> Qc) :
+  (forall alpha (w : list Qc) (y : list cxQ) (A : list cxQ -> list cxQ) x,
+     sql2loss_impl rt alpha w y (A x) = C09_SqL2Loss.call_gen (NS:=NS_impl rt) (LS:=LS_impl) w (C09_SqL2Loss.mk_st alpha y A) x) /\
+  (forall alpha (w : list Qc) (y : list cxQ) (A : list cxQ -> list cxQ) x,
+     sql2abs_impl rt alpha w y (A x) = C09_SqL2AbsLoss.call_gen (NS:=NS_impl rt) (LS:=LS_impl) w (C09_SqL2AbsLoss.mk_st alpha y A) x) /\
+  (forall alpha (w : list Qc) (y : list cxQ) (A : list cxQ -> list cxQ) x,
+     sql2sqabs_impl rt alpha w y (A x) = C09_SqL2SqAbsLoss.call_gen (NS:=NS_impl rt) (LS:=LS_impl) w (C09_SqL2SqAbsLoss.mk_st alpha y A) x).
+Proof.
+  split; [intros; exact (eq_sym (gen_sql2loss rt alpha w y A x))|].
+  split; [intros; exact (eq_sym (gen_sql2abs rt alpha w y A x))|].
+  intros; exact (eq_sym (gen_sql2sqabs rt alpha w y A x)).
 Qed.
